@@ -151,6 +151,9 @@ func (fd *FieldData) BytesValues() ([][]byte, error) {
 	if fd == nil || len(fd.data) == 0 {
 		return nil, ErrTagNotFound
 	}
+	if fd.wt != csproto.WireTypeLengthDelimited {
+		return nil, wireTypeMismatchError(fd.wt, csproto.WireTypeLengthDelimited)
+	}
 	if fd.unsafe {
 		return fd.data, nil
 	}
